@@ -281,7 +281,9 @@ def _expr_simp(e):
 
         # ((A & mask) >> shift) whith mask < 2**shift => 0
         if op == ">>" and isinstance(args[1], ExprInt) and isinstance(args[0], ExprOp) and args[0].op == "&":
-            if isinstance(args[0].args[1], ExprInt) and 2**args[1].arg > args[0].args[1].arg:
+            if isinstance(args[0].args[1], ExprInt) and \
+                    (args[1].arg >= args[0].get_size() or
+                     2**args[1].arg > args[0].args[1].arg):
                 return ExprInt(tab_size_int[args[0].get_size()](0))
 
 
